@@ -559,6 +559,13 @@ size_t ZSTD_seekable_decompress(ZSTD_seekable* zs, void* dst, size_t len, unsign
             zs->decompressedOffset += forwardProgress;
             srcBytesRead += zs->in.pos - prevInPos;
 
+            if (zs->decompressedOffset > zs->seekTable.entries[targetFrame + 1].dOffset) {
+                /* the frame regenerates more than the seek table announces for it :
+                 * what follows would be attributed to the next frames, unverified */
+                zs->curFrame = (U32)-1;
+                return ERROR(corruption_detected);
+            }
+
             if (toRead == 0) {
                 /* frame complete */
 
